@@ -3,3 +3,4 @@
 From Agdb Require Export Bytes Utf8 Codec DbValue Graph DbModel Search Queries FileWal.
 From Agdb Require Raft.
 From Agdb Require Export ExecSched.
+From Agdb Require Export ValueIndex OpenFile.
